@@ -164,6 +164,13 @@ func (f *fileWrapper) Move(newPath string) error {
 		if _, err := f.fs.Stat(target); err == nil {
 			return fmt.Errorf("move to %s: %w", target, os.ErrExist)
 		}
+
+		// So is the name of a partial upload: the file list shows it under its final name.
+		if partial := target + IncompleteFileSuffix; partial != f.incompletePath {
+			if _, err := f.fs.Stat(partial); err == nil {
+				return fmt.Errorf("move to %s: %w", target, os.ErrExist)
+			}
+		}
 	}
 
 	err := f.fs.Rename(f.dataPath, filepath.Join(newPath, f.Name))
